@@ -2,6 +2,7 @@
 import re
 import analyses as A
 import lib
+import witness
 import lockgraph as LG
 import c02
 
@@ -194,3 +195,5 @@ def run(ctx, rep):
     r11a(ctx, rep, cr)
     r11b(ctx, rep, cr)
     r11c(ctx, rep, cr)
+    if ctx.tier == 'thorough':
+        witness.run(rep, 'R11a', ['MetadataShardsArePrivate'])
